@@ -298,6 +298,9 @@ class Assembly:
 
 
 STUBS = {
+    "fmt_write": "core::fmt::write, crate::verif_shims::fmt_write_unreachable",
+    "instant_now": "std::time::Instant::now, crate::verif_shims::instant_now_any",
+    "instant_elapsed": "std::time::Instant::elapsed, crate::verif_shims::instant_elapsed_any",
     "vec_new": "alloc::vec::Vec::new, crate::verif_shims::vec_new_roomy",
     "vec_cap": "alloc::vec::Vec::with_capacity, crate::verif_shims::vec_with_capacity_roomy",
     "vec_push": "alloc::vec::Vec::push, crate::verif_shims::vec_push_nogrow",
@@ -313,7 +316,7 @@ STUBS = {
 }
 
 
-STUB_GROUPS = {"vec": ["vec_new", "vec_cap", "vec_push", "vec_extend"]}
+STUB_GROUPS = {"instant": ["instant_now", "instant_elapsed"], "vec": ["vec_new", "vec_cap", "vec_push", "vec_extend"]}
 
 
 def expand_stubs(spec: str):
